@@ -69,6 +69,8 @@ def gen_harness(ob):
     if ob["kv"].get("pre"):
         pre = "kani::assume(%s(%s));" % (ob["kv"]["pre"], ", ".join(args))
     unwind = "#[kani::unwind(%s)] " % ob["kv"]["unwind"] if ob["kv"].get("unwind") else ""
+    if ob["kv"].get("solver"):
+        unwind += "#[kani::solver(%s)] " % ob["kv"]["solver"]
     return ("#[cfg(kani)] #[kani::proof] %sfn h_%s() { %s %s kani::cover!(true, \"qx-reach\"); assert!(%s(%s), \"qx-ob\"); }"
             % (unwind, ob["fn"], " ".join(lets), pre, ob["fn"], ", ".join(args)))
 
@@ -185,8 +187,10 @@ fn main() {
     return (m.group(1) if m else None), (p.stdout + p.stderr)[-600:]
 
 
-def kani_cmd(harnesses, extra, jobs):
+def kani_cmd(harnesses, extra, jobs, harness_timeout=None):
     cmd = ["cargo", "kani", "--output-format", "terse", "-Z", "function-contracts", "-Z", "stubbing"]
+    if harness_timeout:
+        cmd += ["-Z", "unstable-options", "--harness-timeout", str(int(harness_timeout))]
     if jobs > 1:
         cmd += ["-j", str(jobs)]
     for h in harnesses:
@@ -207,7 +211,7 @@ def parse_results(out):
             th = m.group(1) or "0"
             name = m.group(2).split("::")[-1]
             cur_by_thread[th] = name
-            res[name] = {"status": None, "failed_checks": [], "cover": None, "time": None, "raw": []}
+            res[name] = {"status": None, "failed_checks": [], "cover": None, "time": None, "raw": [], "timed_out": False}
             cur = name if m.group(1) is None else cur
             continue
         m = re.match(r"Thread (\d+):\s*$", l)
@@ -220,6 +224,8 @@ def parse_results(out):
         r["raw"].append(l)
         if l.startswith("VERIFICATION:- "):
             r["status"] = l.split(":- ")[1].strip()
+        elif "CBMC timed out" in l:
+            r["timed_out"] = True
         elif l.startswith("Failed Checks:"):
             r["failed_checks"].append(l[len("Failed Checks:"):].strip())
         elif "cover properties satisfied" in l:
@@ -267,8 +273,9 @@ def run(ctx, uname, u):
     env = dict(os.environ, CARGO_NET_OFFLINE="true", CARGO_TARGET_DIR=os.path.join(ctx.here, ".work", "kani-target"))
     names = ["h_" + o["fn"] for o in obs]
     jobs = int(u.get("jobs", 8))
-    timeout = int(u.get("timeout_thorough" if ctx.tier == "thorough" else "timeout", 900))
-    cmd = kani_cmd(names, u.get("kani_args", []), jobs)
+    timeout = int(u.get("timeout_thorough" if ctx.tier == "thorough" else "timeout", 1800))
+    htimeout = int(u.get("harness_timeout_thorough" if ctx.tier == "thorough" else "harness_timeout", 1200 if ctx.tier == "thorough" else 240))
+    cmd = kani_cmd(names, u.get("kani_args", []), jobs, htimeout)
     res["checker_cmd"] = "qx %s -> %s (installed under cfg(kani) in a throw-away copy of /repo) ; CARGO_NET_OFFLINE=true %s" % (
         u["template"], os.path.relpath(gen, ctx.here), " ".join(cmd[:8]) + " --harness <%d harnesses>" % len(names))
     try:
@@ -288,9 +295,9 @@ def run(ctx, uname, u):
         r = results.get(h)
         kind = o["kv"].get("kind", "complete")
         props = o["tag"].split(":")[0].split(",") if ":" in o["tag"] else None
-        if r is None or r["status"] is None:
+        if r is None or r["status"] is None or r.get("timed_out"):
             res["status"] = "undecided"
-            res["undecided_reason"] = "no verdict for harness %s (solver limit or crash)" % h
+            res["undecided_reason"] = "no verdict for harness %s (solver time limit %ds or crash)" % (h, htimeout)
             continue
         if r["cover"] is not None and r["cover"][0] < r["cover"][1]:
             res["status"] = "undecided"
@@ -313,7 +320,7 @@ def run(ctx, uname, u):
         # FAILED: counterexample + native replay on the extracted real kernel
         cex, replayed, detail = None, False, "\n".join(r["raw"][-25:])
         try:
-            cmd2 = kani_cmd([h], u.get("kani_args", []) + ["-Z", "concrete-playback", "--concrete-playback=print"], 1)
+            cmd2 = kani_cmd([h], u.get("kani_args", []) + ["-Z", "concrete-playback", "--concrete-playback=print"], 1, htimeout)
             p2 = subprocess.run(cmd2, cwd=copy, env=env, capture_output=True, text=True, timeout=timeout)
             cex = parse_playback(p2.stdout + p2.stderr, o)
         except Exception as e:
